@@ -191,12 +191,18 @@ class ResumeOracle:
                         "extra": sorted((gl - self.ulines[k]).elements())[:5]})
         # 3. how the cycle ended
         exhausted = bool(ctx.pops) and ctx.pops[-1] is None
-        if ctx.fired and exhausted and self.partial is not None and sum(self.partial[1].values()):
-            # the quit landed inside the Markov level of the very last pre-terminal: the loop finds the
-            # queue empty and returns without saving
-            return ("quit_in_final_level_not_saved", {"cycle": c, "owed": sum(self.partial[1].values())},
-                    "final-preterminal-omen-quit-not-saved")
-        if ctx.fired and not exhausted:
+        owed_now = self.partial is not None and sum(self.partial[1].values()) > 0
+        if ctx.fired and exhausted and owed_now:
+            # the quit landed inside the Markov level of the very last pre-terminal: the queue is empty
+            # afterwards, but the position inside the level must still have been saved
+            try:
+                sav = session.read_sav(os.path.join(wr, "S.sav"))
+                has = "omen_guess_number" in sav.get("guessing_info", {})
+            except Exception:
+                has = False
+            if not has:
+                return ("quit_in_final_level_not_saved", {"cycle": c, "owed": sum(self.partial[1].values())})
+        if ctx.fired and (not exhausted or owed_now):
             if ctx.fired_in is None:
                 res.faults["quit_after_pop"] += 1
             try:
